@@ -11,6 +11,7 @@ use crate::simdoc::{self, Personality};
 use jsonpath_rust::parser::model::JpQuery;
 use serde::{Deserialize, Serialize};
 use serde_json::{json, Value};
+use std::cell::RefCell;
 use std::collections::{BTreeMap, BTreeSet, HashMap};
 use std::io::{Read, Write};
 use std::process::{Command, Stdio};
@@ -88,7 +89,17 @@ pub struct Plan {
     /// clock jumps injected through the clock seam (simclock.so)
     #[serde(default)]
     pub clock_jumps: Vec<Jump>,
+    /// (client, r): the client's LAST operation is not made from the body of its thread but from the
+    /// destructor of a thread-local value of the caller's own, registered just before operation r
+    /// (thread-locals are destroyed last-registered-first, so r decides which of the library's
+    /// thread-locals, if it has any, are already gone when the call is made)
+    #[serde(default)]
+    pub exit_calls: Vec<(usize, usize)>,
 }
+
+/// `deep_stack` entries at or above this value mean "burn the stack down until (value - LOW_STACK)
+/// KiB remain" instead of "go that many KiB deeper".
+pub const LOW_STACK: usize = 1_000_000;
 
 #[derive(Clone, Debug, Serialize, Deserialize)]
 pub struct OpRec {
@@ -121,6 +132,8 @@ pub struct Probes {
     pub clock_seam: bool,
     #[serde(default)]
     pub clock_reads: u64,
+    #[serde(default)]
+    pub calls_from_tls_destructor: u64,
 }
 
 #[derive(Clone, Debug, Serialize, Deserialize)]
@@ -321,6 +334,68 @@ fn at_depth<R>(kib: usize, f: &mut dyn FnMut() -> R) -> R {
     r
 }
 
+extern "C" {
+    fn pthread_self() -> usize;
+    fn pthread_getattr_np(t: usize, attr: *mut [u64; 16]) -> i32;
+    fn pthread_attr_getstack(attr: *const [u64; 16], addr: *mut *mut std::ffi::c_void, size: *mut usize) -> i32;
+    fn pthread_attr_destroy(attr: *mut [u64; 16]) -> i32;
+}
+
+/// Lowest usable address of the calling thread's stack (0 = unknown).
+fn stack_low() -> usize {
+    unsafe {
+        let mut attr = [0u64; 16];
+        if pthread_getattr_np(pthread_self(), &mut attr) != 0 {
+            return 0;
+        }
+        let mut addr: *mut std::ffi::c_void = std::ptr::null_mut();
+        let mut size = 0usize;
+        let ok = pthread_attr_getstack(&attr, &mut addr, &mut size) == 0;
+        pthread_attr_destroy(&mut attr);
+        if ok {
+            addr as usize
+        } else {
+            0
+        }
+    }
+}
+
+/// Runs `f` with about `kib` KiB of stack left (a caller on a small thread stack, or one that has
+/// used most of its own).
+#[inline(never)]
+fn until_remaining<R>(kib: usize, low: usize, f: &mut dyn FnMut() -> R) -> R {
+    let mut pad = [0u8; 4 * 1024];
+    let here = pad.as_ptr() as usize;
+    if low == 0 || here <= low || here - low <= kib * 1024 + 4096 {
+        return f();
+    }
+    pad[kib % 1024] = 1;
+    let pad = std::hint::black_box(&mut pad);
+    let r = until_remaining(kib, low, f);
+    std::hint::black_box(pad[0]);
+    r
+}
+
+/// A thread-local value of the caller's own whose destructor makes the client's last call.
+struct ExitHook {
+    w: Arc<World>,
+    sch: Arc<Sched>,
+    c: usize,
+    j: usize,
+}
+impl Drop for ExitHook {
+    fn drop(&mut self) {
+        // no scheduler context here (it is cleared, or already destroyed): the call runs without
+        // schedule points, while this client still holds the baton
+        run_client_op(&self.w, self.c, self.j);
+        self.w.probes.lock().unwrap().calls_from_tls_destructor += 1;
+        self.sch.finish(self.c);
+    }
+}
+thread_local! {
+    static EXIT_HOOK: RefCell<Option<ExitHook>> = const { RefCell::new(None) };
+}
+
 fn run_client_op(w: &Arc<World>, c: usize, j: usize) {
     let op = w.plan.clients[c][j].clone();
     sched::with_ctx(|x| {
@@ -336,7 +411,13 @@ fn run_client_op(w: &Arc<World>, c: usize, j: usize) {
     let w2 = w.clone();
     let opc = op.clone();
     let depth_kib = w.plan.deep_stack.iter().find(|(cc, jj, _)| *cc == c && *jj == j).map(|(_, _, k)| *k).unwrap_or(0);
-    let res = std::panic::catch_unwind(std::panic::AssertUnwindSafe(move || at_depth(depth_kib, &mut || exec_op(&w2, &opc))));
+    let res = std::panic::catch_unwind(std::panic::AssertUnwindSafe(move || {
+        if depth_kib >= LOW_STACK {
+            until_remaining(depth_kib - LOW_STACK, stack_low(), &mut || exec_op(&w2, &opc))
+        } else {
+            at_depth(depth_kib, &mut || exec_op(&w2, &opc))
+        }
+    }));
     let aborted_before = sched::with_ctx(|x| {
         x.in_op = false;
         x.aborted_before
@@ -446,8 +527,17 @@ pub fn execute(plan: Plan, full: bool) -> RunResult {
             tu.fetch_add(1, std::sync::atomic::Ordering::Relaxed);
             sched::install_ctx(Ctx { sched: sch.clone(), id: c, op: 0, in_op: false, yields_in_op: 0, aborted_before: false, site_counts: [0; sched::MAX_SITES] });
             let n_ops = w.plan.clients[c].len();
+            let exit_at = w.plan.exit_calls.iter().find(|(cc, _)| *cc == c).map(|(_, r)| (*r).min(n_ops.saturating_sub(1)));
             for j in 0..n_ops {
-                if w.plan.thread_per_op {
+                if exit_at == Some(j) {
+                    EXIT_HOOK.with(|h| *h.borrow_mut() = Some(ExitHook { w: w.clone(), sch: sch.clone(), c, j: n_ops - 1 }));
+                }
+                if exit_at.is_some() && j == n_ops - 1 {
+                    // made from the destructor of EXIT_HOOK, after this closure has returned
+                    sched::clear_ctx();
+                    return;
+                }
+                if w.plan.thread_per_op && exit_at.is_none() {
                     // the client's operation runs on a fresh OS thread (thread-local churn)
                     let ctx = sched::with_ctx(|x| Ctx { sched: x.sched.clone(), id: x.id, op: x.op, in_op: false, yields_in_op: 0, aborted_before: x.aborted_before, site_counts: [0; sched::MAX_SITES] }).unwrap();
                     let w2 = w.clone();
@@ -672,6 +762,7 @@ pub fn sweep_family(seed: u64, f: u64, out: &mut SweepOut) {
                     }
                     crate::npath::Step::Name(n) => q.push_str(&format!("[{}]", gen::quote_single(n))),
                     crate::npath::Step::Idx(i) => q.push_str(&format!("[{}]", i)),
+                    crate::npath::Step::Big(d) => q.push_str(&format!("[{}]", d)),
                 }
             }
             if rng.chance(1, 3) {
@@ -1421,6 +1512,43 @@ pub fn gen_plan_opt(c: &Corpus, run_seed: u64, allow_stress: bool) -> (Plan, Pla
             deep_stack.push((cl, j, *rng.pick(&[256usize, 1200, 1600, 3000])));
         }
     }
+    // one run in eight makes a few calls over small documents with little stack left (64-512 KiB)
+    let light = |cl: usize, j: usize| -> bool {
+        let (q, d) = match &clients[cl][j] {
+            Op::Q { q, d } | Op::P { q, d } | Op::W { q, d } | Op::Ref { q, d } => (*q, *d),
+            Op::E { s, d } => (qslots_ref[*s], *d),
+            _ => return false,
+        };
+        let q_ok = if q < n_normal_q { c.queries[query_map[q]].len() <= 160 } else { true };
+        q_ok && slots[d].iter().all(|ci| { let t = &c.contents[content_map[*ci]]; !t.starts_with('#') && t.len() <= 1200 })
+    };
+    if let Some(kib) = std::env::var("VERIF_C12_LOWSTACK").ok().and_then(|v| v.parse::<usize>().ok()) {
+        // measurement switch: every light operation of every run with this much stack left
+        for cl in 0..n_clients {
+            for j in 0..clients[cl].len() {
+                if light(cl, j) && !deep_stack.iter().any(|(a, b, _)| *a == cl && *b == j) {
+                    deep_stack.push((cl, j, LOW_STACK + kib));
+                }
+            }
+        }
+    } else if !stress && rng.chance(1, 8) {
+        for _ in 0..(1 + rng.below(5)) {
+            let cl = rng.below(n_clients);
+            let j = rng.below(clients[cl].len());
+            if light(cl, j) && !deep_stack.iter().any(|(a, b, _)| *a == cl && *b == j) {
+                deep_stack.push((cl, j, LOW_STACK + *rng.pick(&[64usize, 112, 160, 256, 512])));
+            }
+        }
+    }
+    // one run in twelve: a client makes its last call from a thread-local destructor
+    let mut exit_calls = vec![];
+    if !stress && rng.chance(1, 12) {
+        let cl = rng.below(n_clients);
+        let n = clients[cl].len();
+        if matches!(clients[cl][n - 1], Op::Q { .. } | Op::P { .. } | Op::W { .. } | Op::E { .. } | Op::Ref { .. } | Op::Parse { .. }) && !faults.iter().any(|f| f.c == cl && f.op == n - 1) {
+            exit_calls.push((cl, if rng.chance(1, 2) { 0 } else { rng.below(n) }));
+        }
+    }
     let plan = Plan {
         seed: derive(run_seed, "sched", 0),
         repr,
@@ -1438,6 +1566,7 @@ pub fn gen_plan_opt(c: &Corpus, run_seed: u64, allow_stress: bool) -> (Plan, Pla
         deep_stack,
         reenter_get: repr > 0 && !stress && !has_records && !has_deep && rng.chance(1, 4),
         clock_jumps,
+        exit_calls,
     };
     // fillers select nothing whatever the document (their names occur nowhere), so they need no cold
     // process each; a sample of them is computed cold anyway, to check exactly that assumption
@@ -1593,6 +1722,7 @@ fn remove_op(plan: &Plan, c: usize, from: usize, to: usize) -> Plan {
     p.clients[c].drain(from..to);
     p.clock_jumps = plan.clock_jumps.iter().filter_map(|j| if j.c != c { Some(j.clone()) } else if j.op >= from && j.op < to { None } else if j.op >= to { Some(Jump { c: j.c, op: j.op - (to - from), nth: j.nth, secs: j.secs }) } else { Some(j.clone()) }).collect();
     p.deep_stack = plan.deep_stack.iter().filter_map(|(cc, j, k)| if *cc != c { Some((*cc, *j, *k)) } else if *j >= from && *j < to { None } else if *j >= to { Some((*cc, j - (to - from), *k)) } else { Some((*cc, *j, *k)) }).collect();
+    p.exit_calls = plan.exit_calls.iter().map(|(cc, r)| if *cc != c { (*cc, *r) } else if *r >= to { (*cc, r - (to - from)) } else if *r >= from { (*cc, from) } else { (*cc, *r) }).collect();
     // faults refer to op indices: shift or drop
     p.faults = plan
         .faults
@@ -1615,6 +1745,7 @@ fn remove_op(plan: &Plan, c: usize, from: usize, to: usize) -> Plan {
 fn remove_client(plan: &Plan, c: usize) -> Plan {
     let mut p = plan.clone();
     p.clients.remove(c);
+    p.exit_calls = plan.exit_calls.iter().filter(|(cc, _)| *cc != c).map(|(cc, r)| (if *cc > c { cc - 1 } else { *cc }, *r)).collect();
     p.deep_stack = plan.deep_stack.iter().filter(|(cc, _, _)| *cc != c).map(|(cc, j, k)| (if *cc > c { cc - 1 } else { *cc }, *j, *k)).collect();
     p.clock_jumps = plan.clock_jumps.iter().filter(|j| j.c != c).map(|j| Jump { c: if j.c > c { j.c - 1 } else { j.c }, op: j.op, nth: j.nth, secs: j.secs }).collect();
     p.faults = plan.faults.iter().filter(|f| f.c != c).map(|f| Fault { c: if f.c > c { f.c - 1 } else { f.c }, op: f.op, nth: f.nth, site: f.site }).collect();
@@ -1659,6 +1790,25 @@ pub fn minimise(plan: &Plan, table: &mut ColdTable, class: &str, kind: &str, bud
         if !try_cand(cand, &mut cur, &mut spent, table) {
             i += 1;
         }
+    }
+    // the other injected conditions: caller stack depth, calls from a destructor, clock jumps
+    let mut i = 0;
+    while i < cur.deep_stack.len() {
+        let mut cand = cur.clone();
+        cand.deep_stack.remove(i);
+        if !try_cand(cand, &mut cur, &mut spent, table) {
+            i += 1;
+        }
+    }
+    if !cur.exit_calls.is_empty() {
+        let mut cand = cur.clone();
+        cand.exit_calls.clear();
+        try_cand(cand, &mut cur, &mut spent, table);
+    }
+    if !cur.clock_jumps.is_empty() {
+        let mut cand = cur.clone();
+        cand.clock_jumps.clear();
+        try_cand(cand, &mut cur, &mut spent, table);
     }
     // ops: ddmin per client
     for c in 0..cur.clients.len() {
@@ -1892,6 +2042,7 @@ pub fn drive(tier_name: &str, seed: u64, workers: usize) -> i32 {
     let mut aborts_by_site = vec![0u64; sched::MAX_SITES];
     let mut faults_planned = 0u64;
     let mut deep_ops = 0u64;
+    let mut low_stack_ops = 0u64;
     let mut faults_fired = 0u64;
     let mut sigs: BTreeSet<u64> = BTreeSet::new();
     let mut nontrivial_runs = 0u64;
@@ -2005,7 +2156,8 @@ pub fn drive(tier_name: &str, seed: u64, workers: usize) -> i32 {
                 aborts_by_site[s] += r.sched.aborts_fired_by_site.get(s).copied().unwrap_or(0);
             }
             faults_planned += plan.faults.len() as u64;
-            deep_ops += plan.deep_stack.len() as u64;
+            deep_ops += plan.deep_stack.iter().filter(|(_, _, k)| *k < LOW_STACK).count() as u64;
+            low_stack_ops += plan.deep_stack.iter().filter(|(_, _, k)| *k >= LOW_STACK).count() as u64;
             faults_fired += r.sched.faults_fired.len() as u64;
             if plan.clients.len() >= 2 && r.sched.intra_op_switches >= 1 {
                 nontrivial_runs += 1;
@@ -2020,6 +2172,7 @@ pub fn drive(tier_name: &str, seed: u64, workers: usize) -> i32 {
             *probes_sum.entry("os_threads_used").or_insert(0) += r.probes.threads_used;
             *probes_sum.entry("clock_jumps_fired").or_insert(0) += r.sched.clock_jumps_fired;
             *probes_sum.entry("clock_reads_by_the_run_processes").or_insert(0) += r.probes.clock_reads;
+            *probes_sum.entry("calls_from_a_thread_local_destructor").or_insert(0) += r.probes.calls_from_tls_destructor;
             if r.probes.clock_seam {
                 *probes_sum.entry("runs_with_the_clock_seam_preloaded").or_insert(0) += 1;
             }
@@ -2210,6 +2363,8 @@ pub fn drive(tier_name: &str, seed: u64, workers: usize) -> i32 {
             "client_abort": {"what": "a caller thread unwinds out of the library at a schedule point", "planned": faults_planned, "fired": faults_fired, "fired_by_site": named(&aborts_by_site)},
             "clock_jump": {"what": "the run process' clock (behind the LD_PRELOAD seam) advances by 1 s to 1 year at a schedule point inside an operation", "fired": probes_sum.get("clock_jumps_fired").copied().unwrap_or(0), "runs_with_the_seam": probes_sum.get("runs_with_the_clock_seam_preloaded").copied().unwrap_or(0), "clock_reads_by_the_run_processes": probes_sum.get("clock_reads_by_the_run_processes").copied().unwrap_or(0)},
             "deep_caller_stack": {"what": "an operation is executed 0.25-3 MiB deeper in the caller's stack", "operations": deep_ops},
+            "low_caller_stack": {"what": "an operation over a small document is executed with only 64-512 KiB of the caller's stack left (a small thread stack, or a caller deep in its own recursion)", "operations": low_stack_ops},
+            "call_from_thread_local_destructor": {"what": "a client's last operation is made while its thread is being torn down, from the destructor of a thread-local value of the caller's own registered before one of its operations", "calls": probes_sum.get("calls_from_a_thread_local_destructor").copied().unwrap_or(0)},
             "document_dropped_and_rebuilt": {"rebuilds": probes_sum.get("doc_rebuilds").copied().unwrap_or(0), "at_the_same_address": probes_sum.get("doc_rebuilt_at_same_address").copied().unwrap_or(0)},
             "not_applicable": "network, disk, allocation failure: the library has no such surface"
         },
@@ -2387,4 +2542,42 @@ pub fn plan_main(index: u64, tier_name: &str, seed: u64) -> i32 {
     let (p, _) = gen_plan(&corpus, derive(seed, "run", index));
     println!("{}", serde_json::to_string(&p).unwrap());
     0
+}
+
+#[cfg(test)]
+mod tests {
+    use super::*;
+
+    #[inline(never)]
+    fn eat(n: usize) -> usize {
+        let mut pad = [0u8; 1024];
+        pad[n % 1024] = 1;
+        let p = std::hint::black_box(&mut pad);
+        if n == 0 {
+            p[0] as usize
+        } else {
+            eat(n - 1) + p[1] as usize
+        }
+    }
+
+    #[test]
+    fn low_stack_leaves_what_it_says() {
+        let h = std::thread::Builder::new()
+            .stack_size(16 << 20)
+            .spawn(|| {
+                let low = stack_low();
+                assert!(low != 0, "stack bounds unknown");
+                for kib in [64usize, 112, 512] {
+                    let left = until_remaining(kib, low, &mut || {
+                        let probe = 0u8;
+                        (&probe as *const u8 as usize) - low
+                    });
+                    assert!(left <= kib * 1024 + 8192 && left + 16 * 1024 >= kib * 1024, "asked {} KiB, left {} bytes", kib, left);
+                    // and that much is really usable
+                    until_remaining(kib, low, &mut || eat(kib / 2));
+                }
+            })
+            .unwrap();
+        h.join().unwrap();
+    }
 }
